@@ -36,6 +36,11 @@ SYS, APP = -1, -2
 # ---------------------------------------------------------------------------
 
 RT_DELTAS = [0, 0, 0.001, 0.002, 0.003, 0.005, 0.01, 0.02, 0.03]
+# exact binary fractions: sums are exact in floating point, so equal logical
+# times are bit-equal whatever the (dyadic) start time is - needed when RT and
+# NRT runs are compared, because ties are ordered by insertion
+DYADIC_DELTAS = [0, 0, 1 / 1024, 2 / 1024, 3 / 1024, 5 / 1024, 10 / 1024, 20 / 1024,
+                 31 / 1024]
 NRT_DELTAS = [0, 0, 0.1, 0.25, 1 / 3, 0.5, 1, 1.5, 2, 3.7, 10, 0.001, 1e-9, 7]
 TEMPOS = [0.25, 0.5, 1, 1.5, 2, 3, 4, 8, 16]
 
@@ -47,6 +52,7 @@ class Gen:
         self.nrt_only = nrt_only
         self.features = set(features)   # 'tempo', 'cond', 'flow', 'send', 'rand', 'call'
         self.next_id = 0
+        self.dyadic = False
         self.single_clock = None      # force every routine onto this clock index
         self.all_seeded = False
         self.tempos = TEMPOS
@@ -88,6 +94,8 @@ class Gen:
         return rng.choice(opts)
 
     def delta(self):
+        if self.dyadic:
+            return self.rng.choice(DYADIC_DELTAS)
         return self.rng.choice(RT_DELTAS if self.rt_safe else NRT_DELTAS)
 
     def routine(self, depth, free):
@@ -106,7 +114,8 @@ class Gen:
             self.budget -= 1
             x = rng.random()
             if self.cond_heavy and not free and rng.random() < 0.3:
-                x = 0.87 if rng.random() < 0.75 else 0.93
+                r_ = rng.random()
+                x = 0.87 if r_ < 0.45 else 0.93 if r_ < 0.6 else 0.98
             if x < 0.45:
                 body.append(['y', self.delta()])
             elif x < 0.58 and depth < 3:
@@ -151,6 +160,8 @@ class Gen:
             elif x < 0.97 and 'pr' in self.features and rid > 0:
                 tgt = rng.randrange(rid)          # an older routine
                 body.append([rng.choice(['pause', 'resume', 'resume', 'stop']), tgt])
+            elif x < 0.985 and 'embed' in self.features:
+                body.append(['embed', self.embedded(rid, ci, free, 1)])
             elif x < 0.99 and 'call' in self.features:
                 inner = {'id': self.next_id, 'clock': ci,
                          'body': [['yv', rng.randrange(100)]
@@ -161,6 +172,36 @@ class Gen:
                 body.append(['y', self.delta()])
         R['body'] = body
         return R
+
+    def embedded(self, rid, ci, free, level):
+        """Body of a routine embedded with `yield from embed(Routine(...))`:
+        its yields and waits travel up to the played routine."""
+        rng = self.rng
+        body = []
+        for _ in range(rng.randint(1, 4)):
+            self.budget -= 1
+            x = rng.random()
+            if x < 0.4:
+                body.append(['y', self.delta()])
+            elif x < 0.6 and 'cond' in self.features and not free:
+                if self.nconds == 0 or rng.random() < 0.5:
+                    self.nconds += 1
+                c = rng.randrange(self.nconds)
+                body.append(['wait', c])
+                self.pending_waits.append(('c', c))
+            elif x < 0.7 and 'flow' in self.features and not free:
+                if self.nflows == 0 or rng.random() < 0.5:
+                    self.nflows += 1
+                f = rng.randrange(self.nflows)
+                body.append(['fget', f])
+                self.pending_waits.append(('f', f))
+            elif x < 0.9 and level < 4:
+                body.append(['embed', self.embedded(rid, ci, free, level + 1)])
+            else:
+                body.append(['y', self.delta()])
+        iid = self.next_id
+        self.next_id += 1
+        return {'id': iid, 'level': level, 'body': body}
 
     def _place_signals(self, prog):
         rng = self.rng
@@ -212,6 +253,14 @@ def features_of(prog):
                 if st[1]['clock'] != R['clock']:
                     out.add('cross-clock-child')
                 walk(st[1], depth + 1)
+            if st[0] == 'embed':
+                def wemb(E):
+                    out.add(f"embed-level{E['level']}")
+                    for t in E['body']:
+                        out.add('embedded-' + t[0])
+                        if t[0] == 'embed':
+                            wemb(t[1])
+                wemb(st[1])
     for R in prog['routines']:
         walk(R, 0)
     return out
@@ -268,8 +317,9 @@ class Run:
         self.fails.append(info)
 
     # ---- start --------------------------------------------------------
-    def start(self):
-        """Schedules the root routine (call from the main thread)."""
+    def start(self, at=None):
+        """Schedules the root routine (call from the main thread); at: absolute
+        logical start time (SystemClock seconds) instead of 'now'."""
         run = self
 
         def root():
@@ -286,7 +336,10 @@ class Run:
             run._dec()
         self.live += 1
         r = self.stm.Routine(root)
-        r.play(self.clk.SystemClock)
+        if at is None:
+            r.play(self.clk.SystemClock)
+        else:
+            self.clk.SystemClock.sched_abs(at, r)
         return r
 
     def _dec(self):
@@ -504,6 +557,13 @@ class Run:
                     self.fsig[f] = self.snapshot()
                     self.flows[f].value = s[2]
                     self.log.append(('fset', st['rid'], f, self.now_secs() - self.T0))
+            elif op == 'embed':
+                inner = s[1]
+                run = self
+
+                ir = self.stm.Routine(self.make_embedded(inner, st))
+                yield from self.stm.embed(ir)
+                self.log.append(('embedded-end', st['rid'], inner['id']))
             elif op == 'call':
                 inner, n = s[1], s[2]
                 vals = []
@@ -517,6 +577,13 @@ class Run:
                 self.log.append(('call', st['rid'], inner['id'], vals))
             else:
                 raise ValueError(op)
+
+    def make_embedded(self, inner, st):
+        run = self
+
+        def ebody():
+            yield from run.exec(inner['body'], st, inner)
+        return ebody
 
     def make_inner(self, inner, parent_st):
         run = self
